@@ -10,14 +10,16 @@ missed = [m for m in rows if m['initially_missed']]
 own = sorted(os.path.basename(f) for f in glob.glob(V + '/mutants/*.diff'))
 out = '''## 10. Sensitivity: which check catches which seeded change
 
-Five waves of fourteen independent sub-agents (one per claimed property and wave) were each given
+Six waves of fourteen independent sub-agents (one per claimed property and wave) were each given
 only the text of one property and a scratch git worktree of /repo, nothing from /verif, and asked
 for a small realistic change that breaks the property, still compiles, passes the repository's
 tests and needs something specific to manifest, with a demonstration. The second and third wave
 were steered to a different anchor file of the property than the earlier ones, the fourth to a
 kind of manifestation the earlier ones had not used (a boundary of a tuning constant, state that
 survives between sessions or compilations, a transient fault, a count field, a release ordering),
-the fifth to parts of each property's code that no earlier change had touched.
+the fifth to parts of each property's code that no earlier change had touched, the sixth to
+breakages that need a history (a second session, call or compilation, a retry) or a particular
+interleaving.
 All %d changes were
 confirmed by `bin/confirm-seeded` (patch applies to HEAD; `go build ./...`; `go test` of every
 package except the root passes; the demonstration fails with the change and passes without it) and
@@ -27,7 +29,8 @@ reverts; %d own mutants live under `/verif/mutants/` (hand-made ones and every `
 reversed).
 
 %d of the %d were **missed at first** (6 of 14 in the first wave, 3 of 14 in the second, 1 of 14
-in the third, 5 of 14 in the fourth, 3 of 14 in the fifth) and led to the extensions marked below; no oracle was loosened or tightened for
+in the third, 5 of 14 in the fourth, 3 of 14 in the fifth, 5 of 14 in the sixth - three of these
+five were strengthened from the sub-agent's report before the first run against them) and led to the extensions marked below; no oracle was loosened or tightened for
 them - only workloads, fault kinds, scheduling points, the independence of the harness's
 expectations, (C04) one more monitor clause and (C11) one narrow clause for a new fault kind changed.
 
@@ -76,6 +79,13 @@ What the misses taught (kept as rules for the workloads):
 * Degenerate shapes are shapes: a 0-bit argument (C02-e), exactly two imports (C08-e). And the
   option a property names must be exercised where the user sets it: the malicious flag is an
   argument of `ot.NewCOT`, one layer above the IKNP calls the C15 world drove (C15-e).
+
+* One process serves more than one session, call or compilation - everywhere: a second
+  `circuit.Garbler`/`Evaluator` session on the same OT objects (C02-f), a second `Run` on one
+  `gmw.Network` (C10-f), an `intern()` table that must not outlive its `Params` (C08-f). The worlds
+  now run such second rounds in a share of their cases and judge them like the first.
+* Constants have a signedness that a cache key can forget (C05-f); a signature can be longer than
+  any line buffer (C14-f); a check batch can share coefficients with the batch it checks (C15-f).
 
 Own mutants (`/verif/mutants/*.diff`; `revert-<commit>` is a `fix:` commit reversed): ''' + ', '.join(own) + '''.
 
